@@ -139,7 +139,7 @@ SCORES = [F(0), F(1, 2), F(1), F(3, 2), F(2), F(3), F(-1, 2), F(-1)]
 
 def rand_ballot(rng, cands, vals):
     sc = [[c, rat(rng.choice(vals))] for c in cands if rng.random() < 0.7]
-    return {"s": sc, "w": rat(rng.choice([F(1), F(2), F(1, 2), F(3)]))}
+    return {"s": sc, "w": rat(rng.choice([F(1), F(2), F(1, 2), F(3), F(1), F(2), F(0)]))}
 
 
 def corpus(tier, seed):
